@@ -123,8 +123,12 @@ def gen_case(rng, poly):
     controls = ["u0"] + (["u1"] if rng.random() < 0.4 else [])
     cinputs = ["c0"]
     params = ["p0", "p1", "p2"]  # p2 occurs in the user functions only (never in the DAE)
-    wsize = rng.choice([1, 1, 2])
-    pathvars = [("w0", wsize)] if rng.random() < 0.6 else []
+    # 0-3 path variables of size 1-3; with several of them a vector one often comes first, so that the t0 slot of
+    # a later variable (running offset into the de-scaling vector) differs from its position in the list
+    npv = rng.choice([0, 0, 1, 1, 1, 2, 2, 3])
+    pathvars = [("w%d" % j, rng.choice([1, 1, 2, 3])) for j in range(npv)]
+    if npv >= 2 and rng.random() < 0.6:
+        pathvars[0] = ("w0", rng.choice([2, 3]))
     extravars = [("e0", 1)] if rng.random() < 0.6 else []
     extra_cin = ["z0"] if rng.random() < 0.5 else []
     d = lambda: rng.choice([1.0, -1.0, 2.0, 0.5, -0.25, 3.0])  # noqa: E731
@@ -144,10 +148,13 @@ def gen_case(rng, poly):
         for m in range(E):
             hist[m]["y0"] = ([ts[0] - 0.5, ts[0]], [pick_val(rng), pick_val(rng)])
     nom = {}
-    if rng.random() < 0.5:
+    if rng.random() < (0.8 if len(pathvars) >= 2 else 0.5):
         nom = {"x0": rng.choice([1.0, 10.0, 0.01]), "u0": rng.choice([1.0, 100.0, 0.5])}
-        if pathvars:
-            nom["w0"] = rng.choice([1.0, 4.0])
+        for w, sz in pathvars:  # per variable; sometimes per component (a list, handed over as an array)
+            if sz > 1 and rng.random() < 0.3:
+                nom[w] = [rng.choice([1.0, 4.0, 0.25, 10.0]) for _ in range(sz)]
+            else:
+                nom[w] = rng.choice([1.0, 4.0, 0.25, 10.0])
         if extravars:
             nom["e0"] = rng.choice([1.0, 8.0])
     probs = [rng.choice([0.125, 0.25, 0.5, 1.0, 0.375, 0.0625]) for _ in range(E)]
@@ -214,7 +221,7 @@ def case_spec(dt, user=True):
     s = Spec(times=dt["ts"], states=dt["states"], algs=dt["algs"], controls=dt["controls"],
              cinputs=dt["cinputs"], params=dt["params"], eqs=dt["eqs"], E=dt["E"], pvals=dt["pvals"],
              cin_times=dt["cin_times"], cin=dt["cin"], extra_cin=dt["extra_cin"], hist=dt["hist"],
-             nom=dt["nom"], probs=dt["probs"], theta=dt["theta"], pathvars=dt["pathvars"],
+             nom={k: (np.array(v) if isinstance(v, list) else v) for k, v in dt["nom"].items()}, probs=dt["probs"], theta=dt["theta"], pathvars=dt["pathvars"],
              extravars=dt["extravars"],
              bnds=dict({u: (-10.0, 10.0) for u in dt["controls"]}, **{w: (-50.0, 50.0) for w, _ in dt["pathvars"]},
                        **{e: (-50.0, 50.0) for e, _ in dt["extravars"]}))
@@ -364,10 +371,13 @@ def run_case(c, dt, lines, pend, pr=None, s=None, before=None):
     kinds = sorted({b[0] for pc in dt["pcs"] for bb in pc["bnds"] for b in bb}
                    | {p[k][0] + "@pt" for lst in dt["pts"] for p in lst for k in ("lb", "ub")})
     c.count(("c06" if pr is None else "c06-rerun", dt["E"], len(dt["ts"]), dt["poly"], tuple(kinds), len(dt["pcs"]),
-             tuple(len(x) for x in dt["pts"]), dt["pobj"] is not None, bool(dt["pathvars"]),
+             tuple(len(x) for x in dt["pts"]), dt["pobj"] is not None, tuple(sz for _, sz in dt["pathvars"]),
              bool(dt["extravars"]), bool(dt["extra_cin"])))
     c.programs += 1
     c.hit("c06/" + ("poly" if dt["poly"] else "affine"))
+    pv = dt["pathvars"]
+    if len(pv) >= 2 and any(sz > 1 for _, sz in pv[:-1]) and any(np.any(np.asarray(dt["nom"].get(w, 1.0)) != 1.0) for w, _ in pv[1:]):
+        c.hit("c06/pathvars-vector-not-last-with-nominals")
     for k in kinds:
         c.hit("c06/bound-" + k)
     c.hit("c06/E=%d" % dt["E"])
@@ -747,7 +757,8 @@ def run(c):
     c.rule = (
         "random synthetic problems: 2-5 non-equidistant stamps, t0 in {0,3,-2.5}, E 1-4 with non-uniform "
         "probabilities, 1-2 states, algebraic, 1-2 controls, DAE + extra constant inputs, parameters with "
-        "coincidences/0/1, path variable (size 1-2), extra variable, nominals, theta in {1, 0.5}; random affine "
+        "coincidences/0/1, 0-3 path variables (size 1-3, often a vector one first; nominals per variable or per "
+        "component), extra variable, nominals, theta in {1, 0.5}; random affine "
         "(70%) / polynomial objective, path objective, 0-3 path constraints (size 1-2; scalar, +-inf, vector, "
         "one-element vector, 1-D / 2-D Timeseries on own stamps -> fills; member specific) and 0-3 point "
         "constraints per member (size 1-3); re-run stream: transcribe() twice on one instance with a change of a "
